@@ -51,6 +51,7 @@ type TreeStats struct {
 	NearMax        int // size-limited slabs within 8 bytes of the upper bound
 	NearMin        int // non-root slabs within 8 bytes of the lower bound
 	CompactCand    int // inlined composite-typed maps (compact encoding candidates)
+	UncollapsedGroups int // collision groups holding a single plain element (legal, never produced by the pinned library)
 }
 
 func (s *TreeStats) add(o TreeStats) {
@@ -76,6 +77,7 @@ func (s *TreeStats) add(o TreeStats) {
 	s.NearMax += o.NearMax
 	s.NearMin += o.NearMin
 	s.CompactCand += o.CompactCand
+	s.UncollapsedGroups += o.UncollapsedGroups
 }
 
 // Walker is the independent structural monitor (M-tree / M-reg) with optional model comparison.
@@ -262,17 +264,20 @@ func (w *Walker) checkBand(vi *atree.VerifSlab, isRoot bool, path string) error 
 	if vi.Inlined {
 		return nil
 	}
-	if vi.Size > w.th.Max {
-		return fmt.Errorf("%s: slab %s size %d exceeds the upper bound %d", path, vi.ID, vi.Size, w.th.Max)
+	// the band is the property's, computed from the configured slab size only (not from the library's internal thresholds)
+	bandMax := uint32(float64(w.th.Target) * 1.5)
+	bandMin := w.th.Target / 2
+	if vi.Size > bandMax {
+		return fmt.Errorf("%s: slab %s size %d exceeds the upper bound %d", path, vi.ID, vi.Size, bandMax)
 	}
-	if vi.Size+8 >= w.th.Max {
+	if vi.Size+8 >= bandMax {
 		w.Stats.NearMax++
 	}
 	if !isRoot {
-		if vi.Size < w.th.Min {
-			return fmt.Errorf("%s: non-root slab %s size %d is below the lower bound %d", path, vi.ID, vi.Size, w.th.Min)
+		if vi.Size < bandMin {
+			return fmt.Errorf("%s: non-root slab %s size %d is below the lower bound %d", path, vi.ID, vi.Size, bandMin)
 		}
-		if vi.Size <= w.th.Min+8 {
+		if vi.Size <= bandMin+8 {
 			w.Stats.NearMin++
 		}
 	}
@@ -820,7 +825,8 @@ func (w *Walker) walkMapElement(e atree.VerifElement, digs []atree.Digest, pairs
 			return fmt.Errorf("%s: empty inline collision group", path)
 		}
 		if len(e.Group.Elems) == 1 && e.Group.Elems[0].Kind == "single" {
-			return fmt.Errorf("%s: collision group with a single plain element was not collapsed", path)
+			// not demanded by any property (only that the structure stays valid across collapses): counted, not judged
+			w.Stats.UncollapsedGroups++
 		}
 		return w.walkElements(e.Group, digs, pairs, path)
 
@@ -859,7 +865,7 @@ func (w *Walker) walkMapElement(e atree.VerifElement, digs []atree.Digest, pairs
 			}
 		}
 		if len(g.Elems) == 1 && g.Elems[0].Kind == "single" {
-			return fmt.Errorf("%s: external collision group with a single plain element was not collapsed", path)
+			w.Stats.UncollapsedGroups++
 		}
 		return w.walkElements(g, digs, pairs, path)
 	}
